@@ -237,5 +237,403 @@ theorem rule_transpose_inverse (bm : BMode) (H : Heap α) (x : Tensor α) (wx : 
 
 end transpose
 
+/-! ## 6. SumAlong / AvgAlong -/
+
+theorem projLE_append : ∀ (sd sh u : List Nat) (d h x : Nat), sd.length = sh.length → sh.length = u.length →
+    projLE (sd ++ [d]) (sh ++ [h]) (u ++ [x]) = projLE sd sh u ++ [if d = h then x else 0]
+  | [], [], [], _, _, _, _, _ => by simp [projLE]
+  | a :: sd, b :: sh, c :: u, d, h, x, h1, h2 => by
+    have ih := projLE_append sd sh u d h x (by simpa using h1) (by simpa using h2)
+    simp only [List.cons_append, projLE, ih]
+  | [], _ :: _, _, _, _, _, h1, _ => by simp at h1
+  | _ :: _, [], _, _, _, _, h1, _ => by simp at h1
+  | [], [], _ :: _, _, _, _, _, h2 => by simp at h2
+  | _ :: _, _ :: _, [], _, _, _, _, h2 => by simp at h2
+
+/-- for equal ranks the right-aligned projection commutes with reversal -/
+theorem projLE_reverse : ∀ (sd sh u : List Nat), sd.length = sh.length → sh.length = u.length →
+    projLE sd.reverse sh.reverse u.reverse = (projLE sd sh u).reverse
+  | [], [], [], _, _ => rfl
+  | a :: sd, b :: sh, c :: u, h1, h2 => by
+    have h1' : sd.length = sh.length := by simpa using h1
+    have h2' : sh.length = u.length := by simpa using h2
+    simp only [List.reverse_cons, projLE]
+    rw [projLE_append _ _ _ _ _ _ (by simpa using h1') (by simpa using h2'), projLE_reverse sd sh u h1' h2']
+  | [], _ :: _, _, h1, _ => by simp at h1
+  | _ :: _, [], _, h1, _ => by simp at h1
+  | [], [], _ :: _, _, h2 => by simp at h2
+  | _ :: _, _ :: _, [], _, h2 => by simp at h2
+
+theorem validBroadcastLE_append : ∀ (a b : List Nat) (s d : Nat), a.length = b.length →
+    validBroadcastLE (a ++ [s]) (b ++ [d]) = (validBroadcastLE a b && (s == d || s == 1))
+  | [], [], _, _, _ => by simp [validBroadcastLE]
+  | x :: a, y :: b, s, d, h => by
+    have ih := validBroadcastLE_append a b s d (by simpa using h)
+    simp only [List.cons_append, validBroadcastLE, ih, Bool.and_assoc]
+  | [], _ :: _, _, _, h => by simp at h
+  | _ :: _, [], _, _, h => by simp at h
+
+theorem validBroadcastLE_reverse : ∀ (a b : List Nat), a.length = b.length →
+    validBroadcastLE a.reverse b.reverse = validBroadcastLE a b
+  | [], [], _ => rfl
+  | x :: a, y :: b, h => by
+    have h' : a.length = b.length := by simpa using h
+    simp only [List.reverse_cons]
+    rw [validBroadcastLE_append _ _ _ _ (by simpa using h'), validBroadcastLE_reverse a b h']
+    simp only [validBroadcastLE, Bool.and_comm]
+  | [], _ :: _, h => by simp at h
+  | _ :: _, [], h => by simp at h
+
+/-- UnSqueeze at `dim` of the dims with `dim` removed: the dims with size 1 at `dim` -/
+theorem unsqueeze_squeeze : ∀ (dim : Nat) (xd : List Nat), dim < xd.length →
+    unsqueezeDims dim (squeezeDims dim xd) = xd.set dim 1
+  | _, [], h => by simp at h
+  | 0, d :: ds, _ => by simp [unsqueezeDims, squeezeDims]
+  | dim + 1, d :: ds, h => by
+    have ih := unsqueeze_squeeze dim ds (by simpa using h)
+    simp only [unsqueezeDims, squeezeDims] at ih ⊢
+    simp only [List.take_succ_cons, List.drop_succ_cons, List.cons_append, List.set_cons_succ, ih]
+
+theorem squeezeDims_length (dim : Nat) (xd : List Nat) (h : dim < xd.length) :
+    (squeezeDims dim xd).length = xd.length - 1 := by
+  simp [squeezeDims]; omega
+
+theorem validBroadcastLE_set_one : ∀ (dim : Nat) (xd : List Nat), validBroadcastLE (xd.set dim 1) xd = true
+  | _, [] => by simp [validBroadcastLE]
+  | 0, d :: ds => by simp [validBroadcastLE, validBroadcastLE_self]
+  | dim + 1, d :: ds => by simp [validBroadcastLE, validBroadcastLE_set_one dim ds]
+
+/-- source index read by `Broadcast` from dims with size 1 at `dim`: coordinate `dim` pinned to 0 -/
+theorem projLE_set_one : ∀ (dim : Nat) {xd i : List Nat}, Valid xd i →
+    projLE (xd.set dim 1) xd i = i.set dim 0
+  | _, _, _, .nil => by simp [projLE]
+  | 0, _, _, .cons (d := d) (s := s) (ds := ds) (ss := ss) hs hv => by
+    simp only [List.set_cons_zero, projLE, projLE_self ds ss hv.length_eq]
+    split
+    · rename_i h1; congr 1; omega
+    · rfl
+  | dim + 1, _, _, .cons (d := d) (s := s) (ds := ds) (ss := ss) hs hv => by
+    simp only [List.set_cons_succ, projLE, if_true, projLE_set_one dim hv]
+
+theorem prod_set_one : ∀ (dim : Nat) (xd : List Nat), dim < xd.length → prod (xd.set dim 1) = prod (squeezeDims dim xd)
+  | _, [], h => by simp at h
+  | 0, d :: ds, _ => by simp [squeezeDims, prod]
+  | dim + 1, d :: ds, h => by
+    have ih := prod_set_one dim ds (by simpa using h)
+    simp only [squeezeDims] at ih ⊢
+    simp only [List.set_cons_succ, List.take_succ_cons, List.drop_succ_cons, List.cons_append, prod, ih]
+
+/-- a dimension of size 1 indexed by 0 does not move the row-major offset -/
+theorem offset_set_one : ∀ (dim : Nat) (xd i : List Nat), dim < xd.length → i.length = xd.length →
+    offset (xd.set dim 1) (i.set dim 0) = offset (squeezeDims dim xd) (i.eraseIdx dim)
+  | _, [], _, h, _ => by simp at h
+  | _, _ :: _, [], _, hl => by simp at hl
+  | 0, d :: ds, x :: is, _, _ => by
+    simp only [List.set_cons_zero, List.eraseIdx_cons_zero, squeezeDims, List.take_zero, List.nil_append,
+      List.drop_succ_cons, List.drop_zero, offset]
+    cases offset ds is <;> simp
+  | dim + 1, d :: ds, x :: is, h, hl => by
+    have h' : dim < ds.length := by simpa using h
+    have hl' : is.length = ds.length := by simpa using hl
+    have ih := offset_set_one dim ds is h' hl'
+    have hp := prod_set_one dim ds h'
+    have hsq : squeezeDims (dim + 1) (d :: ds) = d :: squeezeDims dim ds := by simp [squeezeDims]
+    rw [hsq]
+    simp only [List.set_cons_succ, List.eraseIdx_cons_succ, offset, ih]
+    have e1 : (ds.set dim 1).take (is.set dim 0).length = ds.set dim 1 := by
+      have : (is.set dim 0).length = (ds.set dim 1).length := by simp [hl']
+      rw [this, List.take_length]
+    have e2 : (squeezeDims dim ds).take (is.eraseIdx dim).length = squeezeDims dim ds := by
+      have : (is.eraseIdx dim).length = (squeezeDims dim ds).length := by
+        rw [List.length_eraseIdx, squeezeDims_length dim ds h', hl']; simp [h']
+      rw [this, List.take_length]
+    rw [e1, e2, hp]
+
+/-- element of a tensor whose dims carry a size-1 dimension at `dim` = element of the squeezed tensor -/
+theorem at?_set_one (dim : Nat) (xd : List Nat) (data : List α) (i : List Nat) (h : dim < xd.length)
+    (hl : i.length = xd.length) :
+    (⟨xd.set dim 1, data⟩ : Tensor α).at? (i.set dim 0) = (⟨squeezeDims dim xd, data⟩ : Tensor α).at? (i.eraseIdx dim) := by
+  unfold Tensor.at?
+  have l1 : (i.set dim 0).length = (xd.set dim 1).length := by simp [hl]
+  have l2 : (i.eraseIdx dim).length = (squeezeDims dim xd).length := by
+    rw [List.length_eraseIdx, squeezeDims_length dim xd h, hl]; simp [h]
+  simp only [l1, l2, if_true, offset_set_one dim xd i h hl]
+
+section along
+variable [Scalar α]
+
+/-- `reducerBroadcasted(gy, x, dim)`: UnSqueeze at `dim`, then Broadcast to `x.Shape()` — replication along `dim` -/
+theorem reducerBroadcasted_get (gy : Tensor α) (xd : List Nat) (dim : Nat) (hpos : ∀ d ∈ xd, 0 < d)
+    (hdim : dim < xd.length) (wg : gy.WF) (hd : gy.dims = squeezeDims dim xd) :
+    ∃ r, reducerBroadcasted gy xd dim = .ok r ∧ r.dims = xd ∧ r.WF ∧
+      ∀ i, Valid xd i → r.at? i = gy.at? (i.eraseIdx dim) := by
+  have hlen : gy.dims.length = xd.length - 1 := by rw [hd]; exact squeezeDims_length dim xd hdim
+  have hvu : validUnSqueeze (dim : Int) gy.dims = true := by
+    simp only [validUnSqueeze, Bool.and_eq_true, decide_eq_true_eq]; omega
+  have hu : vUnSqueeze gy (dim : Int) = .ok ⟨xd.set dim 1, gy.data⟩ := by
+    unfold vUnSqueeze
+    rw [if_pos hvu, C06.unsqueeze_data gy wg, Int.toNat_natCast, hd, unsqueeze_squeeze dim xd hdim]
+    rfl
+  have wo : (⟨xd.set dim 1, gy.data⟩ : Tensor α).WF := by
+    refine ⟨?_, ?_⟩
+    · show gy.data.length = prod (xd.set dim 1)
+      rw [prod_set_one dim xd hdim, ← hd]; exact wg.1
+    · intro d hd'
+      rcases List.mem_or_eq_of_mem_set hd' with h | h
+      · exact hpos d h
+      · omega
+  have hv : validBroadcast (xd.set dim 1) xd = true := by
+    unfold validBroadcast
+    rw [validBroadcastLE_reverse _ _ (by simp)]
+    exact validBroadcastLE_set_one dim xd
+  obtain ⟨data, e, wf, hget⟩ := C03.broadcast_get ⟨xd.set dim 1, gy.data⟩ wo xd hpos hv
+  refine ⟨⟨xd, data⟩, ?_, rfl, wf, ?_⟩
+  · unfold reducerBroadcasted
+    simp only [bind, Out.bind, hu]
+    unfold vBroadcastN vBroadcast
+    rw [validInputDims_ofNat _ hpos, natDims_ofNat]
+    simp only [Bool.true_and]
+    rw [if_pos hv, e]; rfl
+  · intro i hi
+    have h1 := (hget i.reverse (valid_reverse hi)).1
+    simp only [List.reverse_reverse] at h1
+    rw [h1, projLE_reverse _ _ _ (by simp) (by simp [hi.length_eq]), List.reverse_reverse,
+      projLE_set_one dim hi, at?_set_one dim xd gy.data i hdim hi.length_eq, ← hd]
+
+/-- **`gradtrack.SumAlong`: `gradFn = reducerBroadcasted(y.Gradient(), x, dim)`.** Forward: `y[j] = Σ_k x[j with k
+    inserted at dim]` (`C05.along_get` with `Tensor.sum`), the summation map along `dim`. The closure succeeds on every
+    well-formed upstream gradient of `y`'s shape, returns a well-formed tensor of `x`'s shape, and its element at every
+    valid index `i` of `x` is the upstream element at `i` with coordinate `dim` removed — the same for all values of that
+    coordinate: replication along `dim`, which is the adjoint of summation along `dim`
+    (`Σ_j (Σ_k x[j,k]) gy[j] = Σ_{j,k} x[j,k] gy[j]`). -/
+theorem rule_sumAlong (bm : BMode) (H : Heap α) (gy : Tensor α) (x dim : Nat) (wx : (H.val x).WF)
+    (hdim : dim < (H.val x).dims.length) (wg : gy.WF) (hd : gy.dims = squeezeDims dim (H.val x).dims) :
+    ∃ r, evalRule bm H gy (.sumAlongX x dim) = .ok r ∧ r.dims = (H.val x).dims ∧ r.WF ∧
+      ∀ i, Valid (H.val x).dims i → r.at? i = gy.at? (i.eraseIdx dim) := by
+  simpa [evalRule] using reducerBroadcasted_get gy (H.val x).dims dim wx.2 hdim wg hd
+
+/-- **`gradtrack.AvgAlong` / `MeanAlong`: `gradFn = reducerBroadcasted(y.Gradient(), x, dim).Scale(1 / n)`**, `n` the
+    size of `x` along `dim`. Forward: `y[j] = (Σ_k x[j,k]) / n`, i.e. `(1/n) ·` summation along `dim`. The closure returns
+    `(1/n) · gy[i with coordinate dim removed]` at every valid index `i` of `x`: `(1/n) ·` replication along `dim`, the
+    adjoint of the forward map. -/
+theorem rule_avgAlong (bm : BMode) (H : Heap α) (gy : Tensor α) (x dim : Nat) (wx : (H.val x).WF)
+    (hdim : dim < (H.val x).dims.length) (wg : gy.WF) (hd : gy.dims = squeezeDims dim (H.val x).dims) :
+    ∃ r, evalRule bm H gy (.avgAlongX x dim) = .ok r ∧ r.dims = (H.val x).dims ∧ r.WF ∧
+      ∀ i, Valid (H.val x).dims i →
+        r.at? i = (gy.at? (i.eraseIdx dim)).map
+          (fun g => Scalar.mul (Scalar.div Scalar.one (Scalar.ofNat ((H.val x).dims.getD dim 0))) g) := by
+  obtain ⟨r, e, hdims, wf, hget⟩ := reducerBroadcasted_get gy (H.val x).dims dim wx.2 hdim wg hd
+  refine ⟨vScale r (Scalar.div Scalar.one (Scalar.ofNat ((H.val x).dims.getD dim 0))), ?_, hdims, map_wf _ _ wf, ?_⟩
+  · simp only [evalRule, bind, Out.bind, e]; rfl
+  · intro i hi
+    rw [← hget i hi]
+    exact at?_map _ r i
+
+end along
+
+/-! ## 3. Slice -/
+
+/-- big-endian index `i` lies in the window `[From, To)` of every range -/
+def inWin : List (Nat × Nat) → List Nat → Bool
+  | (f, t) :: w, j :: js => decide (f ≤ j ∧ j < t) && inWin w js
+  | _, _ => true
+
+theorem completeIndex_length : ∀ (idx : List (Nat × Nat)) (ds : List Nat), (completeIndex idx ds).length = ds.length
+  | _, [] => by simp [completeIndex]
+  | [], d :: ds => by simp [completeIndex, completeIndex_length [] ds]
+  | (f, t) :: rest, d :: ds => by simp [completeIndex, completeIndex_length rest ds]
+
+/-- completing an index against the dims of the block it selects gives the same complete index -/
+theorem completeIndex_sliceDims : ∀ (idx : List (Nat × Nat)) (ds : List Nat),
+    completeIndex idx (sliceDims (completeIndex idx ds)) = completeIndex idx ds
+  | _, [] => by simp [completeIndex, sliceDims]
+  | [], d :: ds => by
+    have ih := completeIndex_sliceDims [] ds
+    simp only [sliceDims] at ih
+    simp [completeIndex, sliceDims, ih]
+  | (f, t) :: rest, d :: ds => by
+    have ih := completeIndex_sliceDims rest ds
+    simp only [sliceDims] at ih
+    simp only [completeIndex, sliceDims, List.map_cons]
+    split
+    · simp [ih]
+    · rename_i h; simp [ih]
+
+/-- every range of a complete index is ordered -/
+def Ordered (W : List (Nat × Nat)) : Prop := ∀ p ∈ W, p.1 ≤ p.2
+
+theorem ordered_complete : ∀ {idx ds}, C06.RangesOK idx ds → Ordered (completeIndex idx ds)
+  | _, [], _ => by simp [completeIndex, Ordered]
+  | _, d :: ds, .nil _ => by
+    intro p hp
+    simp only [completeIndex, List.mem_cons] at hp
+    rcases hp with rfl | hp
+    · exact Nat.zero_le _
+    · exact ordered_complete (.nil ds) p hp
+  | _, _, .cons (f := f) (t := t) (d := d) h hr => by
+    intro p hp
+    simp only [completeIndex, List.mem_cons] at hp
+    rcases hp with rfl | hp
+    · split
+      · exact Nat.zero_le _
+      · rcases h with h | h
+        · rename_i hne; exact absurd h hne
+        · exact Nat.le_of_lt h.1
+    · exact ordered_complete hr p hp
+
+theorem insideP_inWin : ∀ (W : List (Nat × Nat)) (i : List Nat), Ordered W →
+    insideP W (sliceDims W) i = inWin W i
+  | [], _, _ => by simp [insideP, inWin, sliceDims]
+  | (f, t) :: W, [], _ => by simp [insideP, inWin, sliceDims]
+  | (f, t) :: W, j :: js, ho => by
+    have hft : f ≤ t := ho (f, t) (by simp)
+    have ih := insideP_inWin W js (fun p hp => ho p (by simp [hp]))
+    simp only [sliceDims] at ih
+    simp only [sliceDims, List.map_cons, insideP, inWin, ih]
+    have : f + (t - f) = t := by omega
+    rw [this]
+
+theorem patchOK_of_rangesOK : ∀ {idx ds}, C06.RangesOK idx ds →
+    C06.PatchOK idx (sliceDims (completeIndex idx ds)) ds
+  | _, [], .nil _ => by simp [completeIndex, sliceDims]; exact .nil
+  | _, d :: ds, .nil _ => by
+    have ih := patchOK_of_rangesOK (.nil ds)
+    simp only [completeIndex, sliceDims, List.map_cons] at ih ⊢
+    exact .omit (by omega) ih
+  | _, _, .cons (f := f) (t := t) (d := d) h hr => by
+    have ih := patchOK_of_rangesOK hr
+    simp only [completeIndex, sliceDims, List.map_cons] at ih ⊢
+    split
+    · rename_i h0
+      exact .cons (by simp) (Or.inl h0) ih
+    · rename_i hne
+      rcases h with h | h
+      · exact absurd h hne
+      · exact .cons (by simp; omega) (Or.inr ⟨h.1, h.2, rfl⟩) ih
+
+theorem validRange_cases {a b : Int} {d : Nat} (h : validRange (a, b) d = true) :
+    (a = 0 ∧ b = 0) ∨ (0 ≤ a ∧ a < b ∧ b ≤ (d : Int)) := by
+  unfold validRange at h
+  by_cases h0 : a = 0 ∧ b = 0
+  · exact Or.inl h0
+  · right
+    have hne : ¬ ((a == 0 && b == 0) = true) := by simpa using h0
+    simp only [hne, if_false] at h
+    by_cases hge : a ≥ b
+    · simp [hge] at h
+    · simp only [hge, if_false] at h
+      have hr' : (decide (a < 0) || decide (a ≥ (d : Int)) || decide (b < 1) || decide (b ≥ (d : Int) + 1)) = false := by
+        cases hb : (decide (a < 0) || decide (a ≥ (d : Int)) || decide (b < 1) || decide (b ≥ (d : Int) + 1)) with
+        | false => rfl
+        | true => rw [hb] at h; simp at h
+      simp only [Bool.or_eq_false_iff, decide_eq_false_iff_not] at hr'
+      omega
+
+theorem validSliceIndex_cons {r : IRange} {rest : List IRange} {d : Nat} {ds : List Nat}
+    (h : validSliceIndex (r :: rest) (d :: ds) = true) : validRange r d = true ∧ validSliceIndex rest ds = true := by
+  simp only [validSliceIndex, List.length_cons, List.zip_cons_cons, List.all_cons, Bool.and_eq_true,
+    decide_eq_true_eq] at h ⊢
+  exact ⟨h.2.1, by omega, h.2.2⟩
+
+/-- the block selected by an accepted Slice index can be patched back with the same index -/
+theorem validPatch_of_validSlice : ∀ (index : List IRange) (ds : List Nat), validSliceIndex index ds = true →
+    validPatchIndex index (sliceDims (completeIndex (natRanges index) ds)) ds = true := by
+  intro index ds hv
+  have hfit := C06.fits_complete (C09.rangesOK_of_valid index ds hv)
+  have hb : ∀ {W ds}, Fits W ds → ((sliceDims W).zip ds).all (fun (s, d) => decide (s ≤ d)) = true := by
+    intro W ds hf
+    induction hf with
+    | nil => simp [sliceDims]
+    | cons htd _ ih =>
+      simp only [sliceDims, List.map_cons, List.zip_cons_cons, List.all_cons, Bool.and_eq_true, decide_eq_true_eq] at ih ⊢
+      exact ⟨by omega, ih⟩
+  have hd : ∀ (index : List IRange) (ds : List Nat), validSliceIndex index ds = true →
+      (index.zip (sliceDims (completeIndex (natRanges index) ds))).all
+        (fun (r, s) => (r.1 == 0 && r.2 == 0) || r.2 - r.1 == (s : Int)) = true := by
+    intro index
+    induction index with
+    | nil => intro ds _; simp
+    | cons r rest ih =>
+      intro ds hv
+      cases ds with
+      | nil => simp [completeIndex, sliceDims]
+      | cons d ds =>
+        obtain ⟨a, b⟩ := r
+        obtain ⟨h1, h2⟩ := validSliceIndex_cons hv
+        have ih' := ih ds h2
+        simp only [natRanges, List.map_cons, completeIndex, sliceDims, List.zip_cons_cons, List.all_cons,
+          Bool.and_eq_true] at ih' ⊢
+        refine ⟨?_, ih'⟩
+        rcases validRange_cases h1 with h | h
+        · simp [h.1, h.2]
+        · have hne : ¬ (a.toNat = 0 ∧ b.toNat = 0) := by omega
+          rw [if_neg hne]
+          simp only [Bool.or_eq_true, beq_iff_eq]
+          right
+          omega
+  simp only [validPatchIndex, Bool.and_eq_true, beq_iff_eq]
+  refine ⟨⟨⟨?_, hb hfit⟩, hv⟩, hd index ds hv⟩
+  simp [sliceDims, completeIndex_length]
+
+section slice
+variable [Scalar α]
+
+/-- **`gradtrack.Slice`: `gradFn = toZeros(x).Patch(index, y.Gradient())`.** Forward (`C06.slice_get`):
+    `y[j] = x[j + From]` for every `j` of the block — selection of the window `W = completeIndex index x.dims`.
+    The closure succeeds on every well-formed upstream gradient of `y`'s shape, returns a well-formed tensor of `x`'s
+    shape, and its element at a valid index `i` of `x` is `gy[i - From]` when `i` lies in the window and the element of
+    `toZeros(x) = x.Scale(0)` (i.e. `0 · x[i]`) outside: embedding of the block into zeros, which is the adjoint of
+    selecting the block. `rule_slice_zero` states the outside value as `0`. -/
+theorem rule_slice (bm : BMode) (H : Heap α) (gy : Tensor α) (x : Nat) (index : List IRange) (wx : (H.val x).WF)
+    (hv : validSliceIndex index (H.val x).dims = true) (wg : gy.WF)
+    (hd : gy.dims = sliceDims (completeIndex (natRanges index) (H.val x).dims)) :
+    ∃ r, evalRule bm H gy (.sliceX x index) = .ok r ∧ r.dims = (H.val x).dims ∧ r.WF ∧
+      ∀ i, Valid (H.val x).dims i →
+        r.at? i = if inWin (completeIndex (natRanges index) (H.val x).dims) i
+          then gy.at? (unshiftP (completeIndex (natRanges index) (H.val x).dims) i)
+          else ((H.val x).at? i).map (fun a => Scalar.mul Scalar.zero a) := by
+  have hrok := C09.rangesOK_of_valid index (H.val x).dims hv
+  have wz : (vScale (H.val x) Scalar.zero).WF := map_wf _ _ wx
+  have hpok : C06.PatchOK (natRanges index) gy.dims (vScale (H.val x) Scalar.zero).dims := by
+    rw [hd]; exact patchOK_of_rangesOK hrok
+  obtain ⟨data, e, hlen, hget⟩ := C06.patch_get (vScale (H.val x) Scalar.zero) gy wz wg (natRanges index) hpok
+  have hvp : validPatchIndex index gy.dims (vScale (H.val x) Scalar.zero).dims = true := by
+    rw [hd]; exact validPatch_of_validSlice index (H.val x).dims hv
+  refine ⟨⟨(H.val x).dims, data⟩, ?_, rfl, ⟨hlen, wx.2⟩, ?_⟩
+  · simp only [evalRule, vPatch]
+    rw [if_pos hvp, e]; rfl
+  · intro i hi
+    have h1 := hget i hi
+    have hci : completeIndex (natRanges index) gy.dims = completeIndex (natRanges index) (H.val x).dims := by
+      rw [hd]; exact completeIndex_sliceDims _ _
+    rw [hci] at h1
+    have hin : insideP (completeIndex (natRanges index) (H.val x).dims) gy.dims i
+        = inWin (completeIndex (natRanges index) (H.val x).dims) i := by
+      rw [hd]; exact insideP_inWin _ _ (ordered_complete hrok)
+    rw [hin] at h1
+    have hz : (vScale (H.val x) Scalar.zero).at? i = ((H.val x).at? i).map (fun a => Scalar.mul Scalar.zero a) :=
+      at?_map _ _ i
+    rw [hz] at h1
+    exact h1
+
+/-- `rule_slice` on a scalar domain where `0 · a = 0` (ℝ, ℚ, ℤ; not IEEE floats with infinities): zero outside -/
+theorem rule_slice_zero (hz : ∀ a : α, Scalar.mul Scalar.zero a = Scalar.zero)
+    (bm : BMode) (H : Heap α) (gy : Tensor α) (x : Nat) (index : List IRange) (wx : (H.val x).WF)
+    (hv : validSliceIndex index (H.val x).dims = true) (wg : gy.WF)
+    (hd : gy.dims = sliceDims (completeIndex (natRanges index) (H.val x).dims)) :
+    ∃ r, evalRule bm H gy (.sliceX x index) = .ok r ∧ r.dims = (H.val x).dims ∧ r.WF ∧
+      ∀ i, Valid (H.val x).dims i →
+        r.at? i = if inWin (completeIndex (natRanges index) (H.val x).dims) i
+          then gy.at? (unshiftP (completeIndex (natRanges index) (H.val x).dims) i)
+          else some Scalar.zero := by
+  obtain ⟨r, e, hdims, wf, hget⟩ := rule_slice bm H gy x index wx hv wg hd
+  refine ⟨r, e, hdims, wf, ?_⟩
+  intro i hi
+  rw [hget i hi]
+  obtain ⟨a, ha⟩ := at?_isSome (H.val x) wx hi
+  rw [ha]; simp [hz]
+
+end slice
+
 end C02x
 end Qeep
